@@ -474,8 +474,12 @@ def isEmptyDict : Val → Bool
   | .dict _ [] => true
   | _ => false
 
-/-- token list of `delete` (after the repair: the same normalisation as lookup) -/
-def deleteTokens (xp : Str) : List Str := tokenize xp
+/-- `if xpath.startswith('?'): xpath = xpath[1:]` of `delete` and `pop` (fix C05-c): the mark "do not raise for a miss"
+is not a part of the path, as in `_get` and `__setitem__` -/
+def stripQ (xp : Str) : Str := if startsWith xp ['?'] then xp.drop 1 else xp
+
+/-- token list of `delete` (after the repairs: without a leading '?', the same normalisation as lookup) -/
+def deleteTokens (xp : Str) : List Str := tokenize (stripQ xp)
 
 /-- the `for i, last_xpath_index in enumerate(range(len(xpath_list), 0, -1))` loop of `delete`:
 `k` is the length of the prefix looked up next -/
@@ -505,12 +509,13 @@ def delete (fuel : Nat) (root : Val) (xp : Str) (recursively : Bool) : Val × Py
 
 /-- `n0dict__.pop(xpath, if_not_found, recursively)`: value and new tree -/
 def pop (fuel : Nat) (root : Val) (xp : Str) (dflt : Val) (recursively : Bool) : PyM (Val × Val) :=
-  match getItem fuel root xp with
+  -- a leading '?' is dropped first (fix C05-c): `pop` never raises for a miss, `dflt` is the answer (not the '' of `d['?…']`)
+  match getItem fuel root (stripQ xp) with
   | (_, .error .OutOfFuel) => .error .OutOfFuel
   | (_, .error .Unsupported) => .error .Unsupported
   | (root, .error _) => .ok (root, dflt)
   | (root, .ok v) =>
-    match delete fuel root xp recursively with
+    match delete fuel root (stripQ xp) recursively with
     | (_, .error .OutOfFuel) => .error .OutOfFuel
     | (_, .error .Unsupported) => .error .Unsupported
     | (root', _) => .ok (root', v)     -- bare `except: pass`: the value is returned whatever delete did
